@@ -295,6 +295,21 @@ func runC12(run *Run, seed int64, cfg c12Cfg, sizes []int, rng *rand.Rand) (out 
 	run.Cell("user", "best-effort", "burst-while-delegate-busy")
 	close(gate)
 	Settle(time.Second)
+	// floods with the delegate free-running: the listener hands messages over while the handler is draining them
+	// (each flood stays below the hand-off queue depth, beyond which dropping is documented)
+	if depth := B.Conf.HandoffQueueDepth; depth >= 600 {
+		for f := 0; f < 4; f++ {
+			for k := 0; k < 500; k++ {
+				id++
+				p := mkPayload(rng, id, 12+k%5, false)
+				if err := A.ML().SendBestEffort(bNode, p); err == nil {
+					sents = append(sents, sent{"best-effort", p})
+				}
+			}
+			Settle(300 * time.Millisecond)
+		}
+		run.Cell("user", "best-effort", "flood")
+	}
 	recv := B.Del.Received()
 	used := make([]bool, len(recv))
 	for _, s := range sents {
